@@ -84,9 +84,12 @@ class InitialPopulationProvider:
             root_path = Path(root).resolve()  # type: ignore[arg-type]
             for name in files:
                 assert isinstance(name, str)
-                if module_name in name and "test_" in name:
+                # Only source files: a byte-code file in __pycache__ carries the name, too.
+                if module_name in name and "test_" in name and name.endswith(".py"):
                     result.append(root_path / name)
-                    break
+        # The file Pynguin itself writes for the module wins over files whose name merely
+        # contains the module name (e.g., test_io_utils.py for the module io).
+        result.sort(key=lambda path: path.name != f"test_{module_name}.py")
         try:
             if len(result) > 0:
                 logger.debug("Module name found: %s", result[0])
